@@ -231,7 +231,11 @@ def all_converged(sim, which='efield'):
         return True
     for src, d in info.items():
         for f, i in d.items():
-            if i is not None and i['exit'] != 0:
+            if i is None:
+                continue
+            if isinstance(i, str):    # file-based: stored on disk
+                i = sim._dict_get(f'{which}_info', src, f)
+            if i['exit'] != 0:
                 return False
     return True
 
